@@ -304,6 +304,7 @@ for _sc in (False, True):
 # ---------------------------------------------------------------------------------------------------
 @contract
 class GetRates:
+    directed = staticmethod(_directed_scaling)     # forecast files looked up after sequences of scale / scale_to_test_date calls
     qualname = GF + '.get_rates'
     case = 'forecast on a lattice region (RI) with equally spaced magnitude edges; arrays of points'
     properties = ('C11',)
